@@ -193,11 +193,14 @@ def handleTraced (j : Json) : R String := do
   let t ← int j "t"
   let tv ← (← arr j "traced").toList.mapM (·.getNat?)
   let on ← bool j "on"
+  let reset := match j.getObjVal? "reset" with
+    | .ok v => v.getBool?.toOption.getD false
+    | .error _ => false
   let rep ← nat j "repeat"
   let snap : SState → Int → Array Float := fun u t =>
     (tv.map fun i => (u[i]?.getD #[])[pos M.n t]?.getD 0.0).toArray
   let step := fun (acc : World (SState × List (TraceLabel × Array Float)) × List String) (_ : Nat) =>
-    let (w', r) := tracedSolveT (interp M) snap on o M.n t acc.1
+    let (w', r) := tracedSolveT (interp M) snap on reset o M.n t acc.1
     (w', acc.2 ++ [resultStr r])
   let (w', rs) := (List.range rep).foldl step (⟨(w.user, []), w.status, w.iters⟩, [])
   pure (joinWith "," rs ++ "|" ++ statusStr w'.status ++ "|" ++ joinWith "," (w'.iters.map toString) ++ "|" ++
